@@ -15,7 +15,8 @@ RULE = ("full product of input spelling (directory: absolute, relative, trailing
         "of the statement (separator-tolerant), equality across spellings, pairwise difference across files.  "
         "non-trivial = every generated page; distinct by (configuration, file)")
 
-FILES = ["a.cmake", "d1/b.cmake", "d1/d2/c.cmake", "d1/d2/d3/x.y-z.cmake"]
+FILES = ["a.cmake", "d1/b.cmake", "d1/d2/c.cmake", "d1/d2/d3/x.y-z.cmake", "mods.cmake.d/arm.cmake",
+         "d1/conf.cmake.in.cmake"]
 SEPS = [".", "/", "::", "-"]
 
 
@@ -109,7 +110,7 @@ def run_config(job):
                 msgs += [f"{x}   [{fpath}, spelling {name}]" for x in m]
                 if t is None or mod is None:
                     continue
-                if t[0:0] != "" or pages[rst].split("\n")[1][:1] != hc and pages[rst].lstrip("\n")[:1] != hc:
+                if pages[rst].lstrip("\n")[:1] != hc:
                     msgs.append(f"frame: title of {fpath} is not framed with the first configured header character {hc!r}")
                 pre = explicit if explicit is not None else "in"
                 if not derive_ok(t, pre, sep, fpath.split("/"), ext_t):
@@ -211,6 +212,7 @@ def module_file(name, body, indent, nxt, i):
 def run_modules(job):
     sep, pmode = job[:2]
     ext_t, ext_m = (job[2], job[3]) if len(job) > 2 else (False, False)
+    headers = list(job[4]) if len(job) > 4 and job[4] else None
     box = fsbox.Box("c12m")
     msgs, n = [], 0
     combos = list(itertools.product(MOD_NAMES, range(len(MOD_BODIES)), MOD_INDENTS, MOD_NEXT))
@@ -220,7 +222,7 @@ def run_modules(job):
             spec[f"in/m{i}.cmake"] = module_file(name, MOD_BODIES[bi], ind, nxt, i)
         box.build(spec)
         with open(box.path("work", "s.yaml"), "w") as f:
-            f.write(settings_yaml(sep, ext_t, ext_m))
+            f.write(settings_yaml(sep, ext_t, ext_m, headers))
         pargs = ["-p", "P"] if pmode == "cli" else []
         r = box.run(["-s", box.path("work", "s.yaml"), "-o", box.path("work", "out")] + pargs + ["in"])
         n = len(combos)
@@ -239,6 +241,9 @@ def run_modules(job):
             msgs += [f"{x}   {what}" for x in m]
             if t is None or mod is None:
                 continue
+            hc = (headers or ["#"])[0]
+            if set(page.frame[0]) != {hc}:
+                msgs.append(f"frame: title is framed with {page.frame[0][:1]!r}, the first configured header character is {hc!r}   {what}")
             if name:
                 if t != name or mod != name:
                     msgs.append(f"module-doccomment-name: title {t!r} / module name {mod!r}, expected both {name!r}   {what}")
@@ -287,6 +292,7 @@ def run(ctx):
     ctx.sweep(run_config, jobs, space="spellings x prefix x separator x extension flags x headers", selftest=2, chunk=1)
     mjobs = [(sep, pm, et, em) for sep in (SEPS[:2] if quick else SEPS) for pm in ("none", "cli")
              for et, em in ((False, False), (True, False), (False, True))]
+    mjobs += [(sep, "none", False, False, hdr) for sep in SEPS[:2] for hdr in (("=", "-", "~"), ("^", "*"))]
     ctx.sweep(run_modules, mjobs, space="module doccomments", selftest=1, chunk=1)
     ctx.cov["bounds"] = {"files": FILES, "separators": SEPS, "dir_spellings": [s[0] for s in DIR_SPELLINGS],
                          "file_spellings": [s[0] for s in FILE_SPELLINGS], "module_variants": 4 * 3 * 5 * 3}
@@ -296,6 +302,6 @@ def run(ctx):
 
 
 def replay(case):
-    if len(case) in (2, 4):
+    if len(case) in (2, 4) or (len(case) == 5 and isinstance(case[1], str) and case[1] in ("none", "cli")):
         return run_modules(tuple(case))["viol"]
     return run_config(tuple(case))["viol"]
